@@ -2,7 +2,8 @@
    (read from capi/geos_c.h.in).  Their error values and return types are NOT written here: they are read from the source
    on every run (Gen/C12_api_table.v) and compared with the classes below (theorem ops_consistent in Properties_C12.v).
    Numeric parameter classes: 0 double, 1 int, 2 unsigned (index / size / count), 3 literal geometry (WKT table of the
-   harness), 4 DE-9IM pattern, 5 geometry type code, 6 SRID. *)
+   harness), 4 DE-9IM pattern, 5 geometry type code, 6 SRID, 7 size (small: it is a legitimate request for that
+   much memory), 8 dimension count. *)
 From Coq Require Import ZArith List Bool String.
 From GeosV.C12 Require Import PoolDefs.
 Import ListNotations.
@@ -58,9 +59,12 @@ Definition ops : list opsig := [
   stat "GEOSDistance_r" [G; G]; stat "GEOSDistanceIndexed_r" [G; G]; stat "GEOSHausdorffDistance_r" [G; G]; stat "GEOSFrechetDistance_r" [G; G];
   stat "GEOSHausdorffDistanceDensify_r" [G; G; d]; stat "GEOSFrechetDistanceDensify_r" [G; G; d];
   mkOp "GEOSMinimumClearance_r" [G] RV RCother false;
-  mkOp "GEOSProject_r" [G; G] RV RCdist false; mkOp "GEOSProjectNormalized_r" [G; G] RV RCdist false;
+  mkOp "GEOSProject_r" [G; G] RV RCdist false;
+  (* the header does not state the error value of the next three: no claim about the return value *)
+  mkOp "GEOSProjectNormalized_r" [G; G] RV RCother false; mkOp "GEOSGetNumGeometries_r" [G] RV RCother false;
+  mkOp "GEOSPreparedDistanceWithin_r" [AC KP; G; d] RV RCother false;
   (* counts / codes *)
-  cnt "GEOSGeomTypeId_r" [G]; cnt "GEOSGetNumGeometries_r" [G]; cnt "GEOSGetNumInteriorRings_r" [G]; cnt "GEOSGeomGetNumPoints_r" [G];
+  cnt "GEOSGeomTypeId_r" [G]; cnt "GEOSGetNumInteriorRings_r" [G]; cnt "GEOSGeomGetNumPoints_r" [G];
   cnt "GEOSGetNumCoordinates_r" [G]; cnt "GEOSNormalize_r" [AM KG];
   mkOp "GEOSGetSRID_r" [G] RV RCother false; mkOp "GEOSGeom_getDimensions_r" [G] RV RCother false;
   mkOp "GEOSGeom_getCoordinateDimension_r" [G] RV RCother false;
@@ -78,7 +82,7 @@ Definition ops : list opsig := [
   mkOp "GEOSGeom_createCollection_r" [AN 5; AX KG; AX KG] fresh RCptr false;
   mkOp "GEOSGeom_createPolygon_r" [AX KG; AX KG] fresh RCptr false;
   (* coordinate sequences *)
-  mkOp "GEOSCoordSeq_create_r" [u; u] (RF KS []) RCptr false; mkOp "GEOSCoordSeq_clone_r" [AC KS] (RF KS []) RCptr false;
+  mkOp "GEOSCoordSeq_create_r" [AN 7; AN 8] (RF KS []) RCptr false; mkOp "GEOSCoordSeq_clone_r" [AC KS] (RF KS []) RCptr false;
   mkOp "GEOSCoordSeq_destroy_r" [AD KS] RNone RCvoid false;
   stat "GEOSCoordSeq_setX_r" [AM KS; u; d]; stat "GEOSCoordSeq_setY_r" [AM KS; u; d]; stat "GEOSCoordSeq_setZ_r" [AM KS; u; d];
   stat "GEOSCoordSeq_setXY_r" [AM KS; u; d; d]; stat "GEOSCoordSeq_setOrdinate_r" [AM KS; u; u; d];
@@ -92,13 +96,13 @@ Definition ops : list opsig := [
   pred "GEOSPreparedCovers_r" [AC KP; G]; pred "GEOSPreparedCrosses_r" [AC KP; G]; pred "GEOSPreparedDisjoint_r" [AC KP; G];
   pred "GEOSPreparedIntersects_r" [AC KP; G]; pred "GEOSPreparedOverlaps_r" [AC KP; G]; pred "GEOSPreparedTouches_r" [AC KP; G];
   pred "GEOSPreparedWithin_r" [AC KP; G]; pred "GEOSPreparedContainsXY_r" [AC KP; d; d]; pred "GEOSPreparedIntersectsXY_r" [AC KP; d; d];
-  stat "GEOSPreparedDistance_r" [AC KP; G]; pred "GEOSPreparedDistanceWithin_r" [AC KP; G; d];
+  stat "GEOSPreparedDistance_r" [AC KP; G];
   mkOp "GEOSPreparedNearestPoints_r" [AC KP; G] (RF KS []) RCptr false;
   (* STRtree: inserted items must outlive the tree *)
-  mkOp "GEOSSTRtree_create_r" [u] (RF KT []) RCptr false; mkOp "GEOSSTRtree_destroy_r" [AD KT] RNone RCvoid false;
+  mkOp "GEOSSTRtree_create_r" [AN 7] (RF KT []) RCptr false; mkOp "GEOSSTRtree_destroy_r" [AD KT] RNone RCvoid false;
   mkOp "GEOSSTRtree_insert_r" [AM KT; AI] RNone RCvoid false; mkOp "GEOSSTRtree_query_r" [AM KT; G] RNone RCvoid false;
   mkOp "GEOSSTRtree_iterate_r" [AM KT] RNone RCvoid false; pred "GEOSSTRtree_remove_r" [AM KT; G; G];
-  mkOp "GEOSSTRtree_nearest_r" [AM KT; G] RV RCptr false;
+  mkOp "GEOSSTRtree_nearest_r" [AM KT; G] RV RCother false;
   (* buffer parameters *)
   mkOp "GEOSBufferParams_create_r" [] (RF KB []) RCptr false; mkOp "GEOSBufferParams_destroy_r" [AD KB] RNone RCvoid false;
   stat "GEOSBufferParams_setEndCapStyle_r" [AM KB; i]; stat "GEOSBufferParams_setJoinStyle_r" [AM KB; i];
